@@ -13,6 +13,9 @@ that reaches every key of the map (`OrdOK`).
 
 Generic: `forEachE_sim`, `forEachIn_sim` — the loops of `Processor.Process` over callbacks that leave their element unchanged simulate a
 `foldlM` of the model when every single call does (`SimStep`).
+
+That `knut check` and `knut print` hand `Process` exactly this ONE processor (`checker.Check()` / `check.Check()`) is pinned by
+`FactsAgree/ProcOrderCheck` and `ProcOrderPrint` (`ProcOrder.checkOrder_eq`, `printOrder_eq`).
 -/
 namespace Knut.FactsAgree.TransProcessAll
 open Knut Knut.GoSem
